@@ -59,6 +59,17 @@ def angle_interval_new_shape(cx, b):
         okn = match('(call *angle_to_2pi (add (param angle) (param start)))', seen[True]['start']) is not None and \
             match('(call f64::min (call f64::abs (param angle)) TAU)', seen[True]['angle']) is not None and \
             match('(call *angle_to_2pi (param start))', seen[False]['start']) is not None and match('(call f64::min (param angle) TAU)', seen[False]['angle']) is not None
+    if not okn and len(lits) == 1:
+        # `Self { start: angle_to_2pi(begin), angle: sweep.min(2pi) }` after `let (begin, sweep) = if angle < 0.0 {..} else {..}`: the normaliser and the clamp are
+        # applied once, after the merge - their ARGUMENTS are separated by the polarity of `angle < 0.0`
+        fv = dict(cx.aggval(lits[0])[2:])
+        n2, mn = b.calls('*angle_to_2pi'), b.calls('f64::min')
+        if len(n2) == 1 and len(mn) == 1 and match('(call *angle_to_2pi _)', fv.get('start')) is not None and match('(call f64::min _ TAU)', fv.get('angle')) is not None:
+            c1 = cx.cases_by(b, n2[0], n2[0].data['args'][:1], '(lt (param angle) 0.0)')
+            c2 = cx.cases_by(b, mn[0], mn[0].data['args'][:1], '(lt (param angle) 0.0)')
+            okn = all(x and x[0] is not None for x in (c1[True], c1[False], c2[True], c2[False])) and \
+                match('(add (param angle) (param start))', c1[True][0]) is not None and match('(param start)', c1[False][0]) is not None and \
+                match('(call f64::abs (param angle))', c2[True][0]) is not None and match('(param angle)', c2[False][0]) is not None
     cx.ob('EXPR', 'AngleInterval::new:shape', okn, 'a negative extent is the same set swept backwards: start := angle_to_2pi(start + angle), extent := min(|angle|, 2pi); otherwise angle_to_2pi(start), min(angle, 2pi)', where=b.file)
 
 
